@@ -29,4 +29,5 @@ def run(tier, seed):
     ctx.assumptions.extend(['formats with adjacent tokens (no separator) are outside the property and not judged'])
     from bounded.core import attach
     attach(ctx, cb.run((PID,), tier, seed))
-    return finish(ctx, 'other')
+    from runner.core import companion_replayer
+    return finish(ctx, 'other', replayers=[(r'.', companion_replayer(ctx, ('C16.',)))])
